@@ -394,6 +394,20 @@ impl<'env> Context<'env> {
             .find_map(|frame| frame.current_loop.as_ref())
     }
 
+    /// Is this the loop object of a loop that is running in this context?
+    ///
+    /// A loop object can outlive its loop or travel into another context (a
+    /// macro closure, a namespace).  Only a loop that is still on this stack
+    /// can be re-entered: its body was compiled for the scopes around it.
+    pub fn is_active_loop(&self, l: &crate::vm::loop_object::Loop) -> bool {
+        self.stack.iter().any(|frame| {
+            frame
+                .current_loop
+                .as_ref()
+                .is_some_and(|state| std::ptr::eq(&*state.object, l))
+        })
+    }
+
     pub fn next_loop_item(&mut self) -> Option<Value> {
         let frame = self
             .stack
